@@ -407,8 +407,10 @@ def proxy_proof_gate(
         # this catches header injection without a separate multi-value API.
         raw = req.get_header(PROOF_HEADER)
         try:
-            if not raw:
+            if raw is None:
                 raise ProofError("no_proof", "header absent")
+            if raw == "":
+                raise ProofError("malformed", "empty proof header")
             if "," in raw:
                 raise ProofError("malformed", "multiple proof headers")
             return verify_proof(
